@@ -343,8 +343,11 @@ where
                     evals.insert((plabel(labels[*i]), pts[*pj].clone()), polys[*i].evaluate(&pts[*pj]));
                 }
                 out.obs(&format!("evals.{}", t), "F", &fs_to_strs(&evals.values().cloned().collect::<Vec<_>>()));
+                let _ = A::take_hash_log();
                 let r = guard_any(|| A::PC::batch_open(&ck, pperm.iter().map(|i| &polys[*i]), pperm.iter().map(|i| &comms[*i]),
                     &qs, &mut ps, pperm.iter().map(|i| &states[*i]), Some(&mut orng)));
+                { let hl = A::take_hash_log(); if !hl.is_empty() { out.input(&format!("hchal.{}", t), &hl); } }
+                if let Some(cum) = &open_cum { out.obs1(&format!("open_draws.{}", t), "N", draws_of(cum, orng.bytes).to_string()); }
                 out.obs1(&format!("open.{}", t), "S", r.class());
                 rec.qs = tr3.clone();
                 if let Some(bp) = r.ok() {
@@ -355,6 +358,7 @@ where
                     out.obs1(&format!("nproofs.{}", t), "N", pv.len().to_string());
                     for (k, pf) in pv.iter().enumerate() { A::proof_obs(&format!("pf.{}.{}", t, k), pf, out); }
                     let d = guard_any(|| A::PC::batch_check(&vk, vperm.iter().map(|i| &comms[*i]), &qs, &evals, &bp, &mut vs, &mut vrng));
+                    { let hl = A::take_hash_log(); if !hl.is_empty() { out.input(&format!("vhchal.{}", t), &hl); } }
                     out.obs1(&format!("check.{}", t), "S", decision(&d));
                     out.obs1(&format!("check_rng_bytes.{}", t), "N", vrng.bytes.to_string());
                     rec.bproof = Some(bp);
@@ -523,7 +527,9 @@ where
                 }
                 if kind == "drop_eval" { let k: usize = args[0].parse().unwrap(); if k < keys.len() { evals.remove(&keys[k]); } else { skipped = true; } }
                 if skipped { out.obs1(&name, "S", "skipped".into()); continue; }
+                let _ = A::take_hash_log();
                 let d = guard_any(|| A::PC::batch_check(&vk, vperm.iter().map(|i| &cms[*i]), &qs, &evals, &bp2, &mut vs2, &mut vrng));
+                { let hl = A::take_hash_log(); if !hl.is_empty() { out.input(&format!("mhchal.{}", m), &hl); } }
                 out.obs1(&name, "S", decision(&d));
                 out.input(&format!("mchal.{}", m), &vs2.challenges(vs2_start));
             }
